@@ -110,6 +110,21 @@ impl<'a> Interpreter<'a> {
         }
     }
 
+    /// Creates an interpreter that evaluates sub-expressions on behalf of `parent`
+    /// (e.g. macro bodies) with its own context and bindings. It starts at the
+    /// parent's current call depth, so recursion through macro bodies stays bounded.
+    pub fn new_child(
+        parent: &Interpreter,
+        cel: &'a CelContext,
+        bindings: &'a BindContext,
+    ) -> Interpreter<'a> {
+        Interpreter {
+            cel: Some(cel),
+            bindings: Some(bindings),
+            depth: ScopedCounter::starting_at(parent.depth.count()),
+        }
+    }
+
     pub fn empty() -> Interpreter<'a> {
         Interpreter {
             cel: None,
